@@ -3,7 +3,7 @@ from common import LEAN_TB
 CFG = {'lean_modules': ['ObiVerif.Props.C10'],
  'gen': True,
  'thorough_seeds': 8,
- 'rule': 'cases = (operation, pattern, budget, indel flag, complemented?, sequence, circular?, begin, length): hand-picked corpus (every defect found — incl. '
+ 'rule': 'conc cases (3 per quick run, 12 per thorough seed): 3-5 scans (one without budget, budgets 1..4, one with indels) over 40-120 kb sequences with planted sites, answered alone (= the model) and then again from 8-16 goroutines released together, one compiled pattern shared by the goroutines, one ApatSequence per scan, as the parallel batch workers of obipcr / obigrep / obimultiplex do: every concurrent scan must give the answer of the scan alone (oracle conc.differs; caught seeded change C10-m4, a static state array in ManberSub/ManberIndel); other cases = (operation, pattern, budget, indel flag, complemented?, sequence, circular?, begin, length): hand-picked corpus (every defect found — incl. '
          'the circular over-read and the FilterBestMatch sentinel witnesses with a first hit beyond position 10000 —, hits touching both ends, hits at the '
          'first position of a window with begin > 0 and straddling it, window ends inside the sequence, empty/short sequences, pattern lengths 1, 31, 32, 33, '
          '63, 64 and 65, budgets 62..65, 100, 1000 and 2^30 through MakeApatPattern, BestMatch hits touching the beginning with leading pattern symbols '
@@ -89,7 +89,7 @@ CFG = {'lean_modules': ['ObiVerif.Props.C10'],
                'is the documented restriction of AllMatches plus the X counterexample). Tied by correspondence/oracle only: AllMatches/BestMatch results on '
                'circular sequences beyond the characterisation theorems (D35), pattern length 64 (result lines `unmodelled`, oracle find.*.patlen64 = D33), '
                'complementPattern outside the documented grammar (complement_outside_grammar), strand symmetry of patterns with # in indel mode.',
- 'level_note': 'Trusted: Lean kernel; the transcription Model/Apat.lean (validated differentially: compiled code words, omask, S matrix and every hit list are '
+ 'level_note': 'Concurrency: the model is sequential; that a scan shares no state with the scans running beside it (what makes the sequential theorems apply to the parallel workers) is exercised by the conc cases, not proved (C code; runtime behaviour). Trusted: Lean kernel; the transcription Model/Apat.lean (validated differentially: compiled code words, omask, S matrix and every hit list are '
                'compared byte for byte); the C compiler; extractor (literals only). The model follows the code as repaired by the ten C10 patches in '
                'notes/patches (all committed in /repo: BestMatch end, LocatePattern start, LocatePattern short sequence, complement of !X# first, complement '
                'of negated classes, EncodeSequence non-letter, circular sequence shorter than MAX_PAT_LEN, FilterBestMatch sentinel beyond position 10000, and '
